@@ -492,7 +492,11 @@ def seq_env(stmts, upto=None, env=None, keep=()):
                 and all(isinstance(t, ast.Name) for t in s.targets[0].elts):
             vals = [_SubstEnv(env).visit(copy.deepcopy(v)) for v in s.value.elts]
             for t, v in zip(s.targets[0].elts, vals):
-                env[t.id] = v
+                if (isinstance(v, (ast.List, ast.Dict, ast.Set)) and not getattr(v, "elts", getattr(v, "keys", None))) or \
+                        (isinstance(v, ast.Call) and isinstance(v.func, ast.Name) and v.func.id in ("list", "dict", "set") and not v.args and not v.keywords):
+                    env.pop(t.id, None)     # mutable accumulator: keep the name opaque
+                else:
+                    env[t.id] = v
         elif isinstance(s, ast.Assign) and len(s.targets) == 1 and isinstance(s.targets[0], (ast.Tuple, ast.List)) \
                 and all(isinstance(t, ast.Name) for t in s.targets[0].elts):
             # tuple unpacking of a call: name -> call(...)[i]
